@@ -337,14 +337,7 @@ fn classify<T>(r: &Result<T>) -> u8 {
 
 /// C10/C14 M-get_array_checked: index walker + final value skip == reference lookup; every
 /// traversed sibling and separator is validated; not-found only for a missing index.
-#[kani::proof]
-#[kani::unwind(9)]
-#[kani::stub(crate::error::Error::syntax, crate::error::verif_kani_error::syntax_cut)]
-#[kani::stub(Parser::skip_space, model_skip_space)]
-#[kani::stub(Parser::skip_one, model_skip_one)]
-#[kani::stub(Parser::peek_invalid_type, cut_peek_invalid_type)]
-fn m_get_array_checked_n7() {
-    const N: usize = 7;
+fn get_array_checked_body<const N: usize>() {
     let buf: [u8; N] = kani::any();
     let n: usize = kani::any();
     kani::assume(n <= N);
@@ -370,6 +363,26 @@ fn m_get_array_checked_n7() {
     kani::cover!(expect == Look::NotFound && idx == 1);
     kani::cover!(expect == Look::Malformed && unsafe { CALLS } >= 1);
     core::mem::forget(r);
+}
+
+#[kani::proof]
+#[kani::unwind(8)]
+#[kani::stub(crate::error::Error::syntax, crate::error::verif_kani_error::syntax_cut)]
+#[kani::stub(Parser::skip_space, model_skip_space)]
+#[kani::stub(Parser::skip_one, model_skip_one)]
+#[kani::stub(Parser::peek_invalid_type, cut_peek_invalid_type)]
+fn m_get_array_checked_n6() {
+    get_array_checked_body::<6>();
+}
+
+#[kani::proof]
+#[kani::unwind(9)]
+#[kani::stub(crate::error::Error::syntax, crate::error::verif_kani_error::syntax_cut)]
+#[kani::stub(Parser::skip_space, model_skip_space)]
+#[kani::stub(Parser::skip_one, model_skip_one)]
+#[kani::stub(Parser::peek_invalid_type, cut_peek_invalid_type)]
+fn m_get_array_checked_n7() {
+    get_array_checked_body::<7>();
 }
 
 // ---- M-get_object_checked ---------------------------------------------------------------------
@@ -478,6 +491,17 @@ fn get_object_checked_body<const N: usize>() {
 #[kani::stub(Parser::peek_invalid_type, cut_peek_invalid_type)]
 fn m_get_object_checked_n8() {
     get_object_checked_body::<8>();
+}
+
+#[kani::proof]
+#[kani::unwind(9)]
+#[kani::stub(crate::error::Error::syntax, crate::error::verif_kani_error::syntax_cut)]
+#[kani::stub(Parser::skip_space, model_skip_space)]
+#[kani::stub(Parser::skip_one, model_skip_one)]
+#[kani::stub(Parser::parse_string_raw, model_parse_string_raw)]
+#[kani::stub(Parser::peek_invalid_type, cut_peek_invalid_type)]
+fn m_get_object_checked_n7() {
+    get_object_checked_body::<7>();
 }
 
 #[kani::proof]
@@ -857,7 +881,7 @@ fn dom_object_body<const N: usize>(inplace: bool) {
     }
     kani::cover!(r.is_ok() && vis.n == 4);
     kani::cover!(r.is_ok() && vis.n == 2);
-    kani::cover!(r.is_err() && vis.n >= 3);
+    kani::cover!(r.is_err() && vis.n >= 2);
     core::mem::forget(r);
     core::mem::forget(strbuf);
 }
@@ -875,6 +899,16 @@ fn m_dom_object2_n8() {
     dom_object_body::<8>(false);
 }
 
+#[kani::proof]
+#[kani::unwind(9)]
+#[kani::stub(crate::error::Error::syntax, crate::error::verif_kani_error::syntax_cut)]
+#[kani::stub(Parser::skip_space, model_skip_space)]
+#[kani::stub(Parser::parse_string_owned, model_parse_string_owned)]
+#[kani::stub(Parser::parse_value2, model_parse_value2)]
+fn m_dom_object2_n7() {
+    dom_object_body::<7>(false);
+}
+
 /// C02/C03 M-dom-object (in-place driver)
 #[kani::proof]
 #[kani::unwind(10)]
@@ -884,6 +918,16 @@ fn m_dom_object2_n8() {
 #[kani::stub(Parser::parse_value, model_parse_value)]
 fn m_dom_object_n8() {
     dom_object_body::<8>(true);
+}
+
+#[kani::proof]
+#[kani::unwind(9)]
+#[kani::stub(crate::error::Error::syntax, crate::error::verif_kani_error::syntax_cut)]
+#[kani::stub(Parser::skip_space, model_skip_space)]
+#[kani::stub(Parser::parse_string_inplace, model_parse_string_inplace)]
+#[kani::stub(Parser::parse_value, model_parse_value)]
+fn m_dom_object_n7() {
+    dom_object_body::<7>(true);
 }
 
 fn model_parse_number_visit<'de, R: Reader<'de>, V: JsonVisitor<'de>>(p: &mut Parser<R>, _first: u8, vis: &mut V) -> Result<()> {
@@ -1069,14 +1113,7 @@ fn model_parse_str<'de, 'own, R: Reader<'de>>(
 /// C12/C14 M-entry: one step of the lazy object iterator from every (first, position): yields
 /// the next member (key span, value span) iff a member introduced by a correct separator
 /// follows, None iff `}`, an error otherwise; checked mode.
-#[kani::proof]
-#[kani::unwind(11)]
-#[kani::stub(crate::error::Error::syntax, crate::error::verif_kani_error::syntax_cut)]
-#[kani::stub(Parser::skip_space, model_skip_space)]
-#[kani::stub(Parser::skip_one, model_skip_one)]
-#[kani::stub(Parser::parse_str, model_parse_str)]
-fn m_entry_lazy_n9() {
-    const N: usize = 9;
+fn entry_lazy_body<const N: usize>() {
     let buf: [u8; N] = kani::any();
     let n: usize = kani::any();
     kani::assume(n <= N);
@@ -1142,6 +1179,26 @@ fn m_entry_lazy_n9() {
     kani::cover!(exp.0 == 0 && !first0 && start < n);
     core::mem::forget(r);
     core::mem::forget(strbuf);
+}
+
+#[kani::proof]
+#[kani::unwind(9)]
+#[kani::stub(crate::error::Error::syntax, crate::error::verif_kani_error::syntax_cut)]
+#[kani::stub(Parser::skip_space, model_skip_space)]
+#[kani::stub(Parser::skip_one, model_skip_one)]
+#[kani::stub(Parser::parse_str, model_parse_str)]
+fn m_entry_lazy_n7() {
+    entry_lazy_body::<7>();
+}
+
+#[kani::proof]
+#[kani::unwind(11)]
+#[kani::stub(crate::error::Error::syntax, crate::error::verif_kani_error::syntax_cut)]
+#[kani::stub(Parser::skip_space, model_skip_space)]
+#[kani::stub(Parser::skip_one, model_skip_one)]
+#[kani::stub(Parser::parse_str, model_parse_str)]
+fn m_entry_lazy_n9() {
+    entry_lazy_body::<9>();
 }
 
 // ---- M-get (unchecked walkers): well-formed input, concrete grammar -------------------------------
@@ -1305,4 +1362,78 @@ fn m_get_array_unchecked_n8() {
     kani::cover!(found.is_none() && idx == 1);
     kani::cover!(found.is_some() && idx == 2);
     core::mem::forget(r);
+}
+
+/// C10 M-get_object (unchecked): on every well-formed document <= N bytes whose value is an object
+/// (escape-free keys), the trusting key walker + final skip returns exactly the source span of
+/// the first member with that key, and fails when the key is missing.
+#[kani::proof]
+#[kani::unwind(12)]
+#[kani::stub(crate::error::Error::syntax, crate::error::verif_kani_error::syntax_cut)]
+#[kani::stub(Parser::skip_space, model_skip_space)]
+#[kani::stub(Parser::skip_container, model_skip_container)]
+#[kani::stub(Parser::skip_string_unchecked, model_skip_string_unchecked)]
+#[kani::stub(Parser::get_next_token, model_get_next_token)]
+#[kani::stub(Parser::parse_string_raw, model_parse_string_raw)]
+#[kani::stub(Parser::skip_one, model_skip_one_full)]
+#[kani::stub(Parser::peek_invalid_type, cut_peek_invalid_type)]
+fn m_get_object_unchecked_n9() {
+    const N: usize = 9;
+    let buf: [u8; N] = kani::any();
+    let n: usize = kani::any();
+    kani::assume(n <= N);
+    kani::assume(ref_is_json_text(&buf, n));
+    unsafe {
+        setup(&buf, n);
+        setup_full(&buf, n);
+        TOK_A = b'"';
+        TOK_B = b'}';
+    }
+    let s0 = unsafe { ws_next(0) };
+    kani::assume(buf[s0] == b'{');
+    let key: [u8; 1] = kani::any();
+    let klen: usize = kani::any();
+    kani::assume(klen <= 1 && key[0] < 0x80);
+    // reference: walk the members with the full grammar; first match wins
+    let mut i = unsafe { ws_next(s0 + 1) };
+    let mut found: Option<(usize, usize)> = None;
+    if buf[i] != b'}' {
+        loop {
+            let ks = i + 1;
+            let ke = unsafe { tab(&STR_END, ks) }.unwrap();
+            let same = ke - 1 - ks == klen && (klen == 0 || buf[ks] == key[0]);
+            let c = unsafe { ws_next(ke) };
+            let vs = unsafe { ws_next(c + 1) };
+            let ve = unsafe { tab(&FULL_END, vs) }.unwrap();
+            if same {
+                found = Some((vs, ve));
+                break;
+            }
+            i = unsafe { ws_next(ve) };
+            if buf[i] == b'}' {
+                break;
+            }
+            i = unsafe { ws_next(i + 1) };
+        }
+    }
+    let ks = unsafe { from_utf8_unchecked(&key[..klen]) };
+    let mut tmp: Vec<u8> = Vec::new();
+    let mut p = mk(&buf[..n]);
+    let r = match p.get_from_object(ks, &mut tmp) {
+        Ok(()) => p.skip_one(),
+        Err(e) => Err(e),
+    };
+    match found {
+        Some((s, e)) => {
+            let (span, _) = r.as_ref().ok().unwrap();
+            assert_eq!(span.as_ptr(), unsafe { buf.as_ptr().add(s) });
+            assert_eq!(span.len(), e - s);
+        }
+        None => assert!(r.is_err()),
+    }
+    kani::cover!(matches!(found, Some((s, _)) if s >= 6));
+    kani::cover!(found.is_none() && n == N);
+    kani::cover!(matches!(found, Some((s, e)) if e - s >= 3));
+    core::mem::forget(r);
+    core::mem::forget(tmp);
 }
